@@ -1,0 +1,39 @@
+//go:build verif
+// +build verif
+
+package account
+
+import (
+	"bytes"
+	"sort"
+
+	"github.com/LemoFoundationLtd/lemochain-core/chain/types"
+	"github.com/LemoFoundationLtd/lemochain-core/common"
+)
+
+// Read-only verification hook (property C07). Nothing here is compiled into the node; the file only exists under the
+// `verif` build tag.
+
+// VerifDirtyKeys returns the sorted key sets of the pending-write (`dirty`) maps of the four storage caches of an
+// account: [0] contract storage, [1] asset code, [2] asset id, [3] equity. The dirty set is invisible to every getter
+// but decides what Finalise publishes (StorageCache.Update). ok = false when the accessor is neither *SafeAccount nor *Account.
+func VerifDirtyKeys(acc types.AccountAccessor) (out [4][]common.Hash, ok bool) {
+	var raw *Account
+	switch a := acc.(type) {
+	case *SafeAccount:
+		raw = a.rawAccount
+	case *Account:
+		raw = a
+	default:
+		return out, false
+	}
+	for i, cache := range []*StorageCache{raw.storage, raw.assetCode, raw.assetId, raw.equity} {
+		keys := make([]common.Hash, 0, len(cache.dirty))
+		for k := range cache.dirty {
+			keys = append(keys, k)
+		}
+		sort.Slice(keys, func(x, y int) bool { return bytes.Compare(keys[x][:], keys[y][:]) < 0 })
+		out[i] = keys
+	}
+	return out, true
+}
